@@ -15,20 +15,25 @@ LEVEL_TEXT = ("Coq theorems over an exact-rational model of the criterion famili
               "allele-frequency distance/unavailability, optimal population value, genotype builder) and of evalfn: the subset formula of "
               "every family equals the contribution-vector formula at multiplicity/k, integer-count and binary-indicator vectors normalise "
               "to that contribution vector, values are invariant under permutations of the subset and under positive rescaling outside the "
-              "|sum x| < 1e-10 guard, ||C c||^2 = c'(C'C)c, evalfn = weights x transformations of the latent vector; the allele-availability "
-              "thresholds are modelled bit-exactly in binary64 (rounded reciprocal) and proved equal to the count-based flags for every "
-              "ploidy*k <= 1024 with fl(fl(1/N)*N) = 1, refuted for the others (N = 49). The model is tied to the code by evaluating it inside "
-              "Coq against latentfn/evalfn/evaluate of all 61 evaluable concrete problem classes on generated data")
+              "|sum x| < 1e-10 guard, ||C c||^2 = c'(C'C)c, evalfn = weights x transformations of the latent vector, the declared nlatent is the "
+              "length of the latent vector; the allele-availability thresholds are modelled bit-exactly in binary64 (one correctly rounded "
+              "division count/(ploidy*k)) and proved equal to the count-based definition for every selection of up to 2^53 chromosome copies "
+              "and every target frequency in [0,1] (through Flocq); the former code (rounded reciprocal, tmajor computed with the tminor test) "
+              "is refuted on separately named old_ definitions as a regression witness. The model is tied to the code by evaluating it inside "
+              "Coq against latentfn/evalfn/evaluate/nlatent of all 61 evaluable concrete problem classes on generated data")
 LEVEL_NOTE = ("trusted: Coq kernel + vm_compute, PrimFloat primitives; BLAS/numpy summation order is not modelled (values compared within 2^-30 of "
               "the exact rational, exactly on power-of-two cases); sqrt (norms, usefulness criterion), the normal density (selection intensity), "
               "arcsin/sqrt weights and Cholesky factors are compared through their squares / within tolerance by the predicate only; factory "
-              "methods are checked by the independent predicate (definition recomputed from the population, taxon-permutation equivariance), "
-              "not by a Coq model; simulation-based problems (look-ahead) are out of scope")
+              "methods are checked by the independent predicate (definition recomputed from the population, taxon-permutation equivariance) "
+              "and, where the definition is rational (gebv, integer-alpha gwgebv, haplotype values, L1 tensor, cross maps, selfed EMBV), by the "
+              "Coq model too; the |sum x| < 1e-10 guard of the real-encoded classes stays a known finding (design decision of the library); "
+              "the binary64 division theorem rests on Flocq's PrimFloat bridge (classical reals); simulation-based problems (look-ahead) are out of scope")
 TECHNIQUE = "Coq proof over an executable rational/binary64 model; in-Coq vm_compute correspondence with the implementation; exact-rational predicate"
 RULE = ("case = (criterion family, candidate data on a dyadic grid, selected multiset s, listing permutation, positive scale a, free real / "
         "integer vectors, objective/constraint weights and transformation specs) evaluated on all encodings of that family, or "
         "(population, taxon permutation, factory) for the factory clause, or the class-enumeration case; one PRNG; sizes n 1..8 (up to 206 for "
-        "the allele-frequency families so that ploidy*k hits 49, 98, 103, 107), k 1..6 incl. repeated members, zero vectors, guard-region sums; "
+        "the allele-frequency families so that ploidy*k hits 49, 98, 103, 107 where a rounded reciprocal is inexact), target frequencies incl. "
+        "exactly 0 and 1, k 1..6 incl. repeated members, zero vectors, guard-region sums; "
         "non-trivial = at least two distinct members selected out of >= 3 candidates; distinct by SHA-256 of the case")
 TRUSTED = ["numpy/BLAS dot and pairwise summation: compared in tolerance regime T (2^-30) against exact rationals, exactly (E) when k and the sums are powers of two",
            "int8 genotype sums and int->float conversion are exact (modelled by PrimFloat.of_uint63)",
@@ -216,6 +221,8 @@ def run_latent(case):
     out["ev_sub2"] = _ev(ps, x2)
     out["evaluate_sub"] = _evaluate(ps, [xs, x2]) if 0 < k <= n else None      # pymoo insists on len(x) == ndecn <= n
     out["evaluate_sub1"] = _evaluate(ps, xs) if 0 < k <= n else None
+    if fam in ("pau", "pafd"):                    # the flags the tfreq setter derives from the targets
+        out["tflags"] = _try(lambda: {nm: numpy.asarray(getattr(ps, nm)).astype(int).tolist() for nm in ("tminor", "thet", "tmajor")})
     if fam in SUBSET_ONLY:
         return out
     cnt = _counts(n, s)
@@ -276,8 +283,7 @@ def gen_data(rng, fam, n, t, ploidy=None):
         geno = [[{"fix0": 0, "fix1": ploidy, "one": ploidy, "poly": rng.randint(0, ploidy)}[kinds[j]] for j in range(p)] for _ in range(n)]
         for j in range(p):
             if kinds[j] == "one": geno[rng.randrange(n)][j] = ploidy - 1
-        inner = fam == "pau" and rng.random() < 0.6       # PAU mishandles targets of exactly 0 / 1 (known finding): keep clean cases too
-        tf = (lambda: rng.choice([0.5, 0.25, rng.randint(1, 15) / 16])) if inner else (lambda: rng.choice([0.0, 1.0, 0.5, 0.25, rng.randint(1, 15) / 16]))
+        tf = lambda: rng.choice([0.0, 1.0, 0.5, 0.25, rng.randint(1, 15) / 16])       # targets of exactly 0 / 1 are ordinary cases
         return {"geno": geno, "ploidy": ploidy, "mkrwt": [[rng.randint(0, 32) / 8 for _ in range(t)] for _ in range(p)],
                 "tfreq": [[tf() for _ in range(t)] for _ in range(p)]}
     if fam in ("opv", "gb"):
@@ -460,10 +466,14 @@ def pred_latent(case, out):
         if isinstance(v, dict) and "exc" in v:
             bad.append("%s raised %s: %s" % (key, v["exc"], v["msg"]))
     if bad: return bad
-    # (nlatent is checked by the separate "nlatent" case kind so that its known finding does not mask latent-value failures)
     c = [F(v, k) for v in cnt]
     want = defn(fam, d, c, s)
     sub = _frl(out["sub"])
+    if out["nlatent"] != len(out["sub"]): bad.append("nlatent = %s but latentfn returns %d values (family %s)" % (out["nlatent"], len(out["sub"]), fam))
+    if "tflags" in out:
+        tfl = out["tflags"]
+        for nm, test in (("tminor", lambda v: v == 0), ("thet", lambda v: 0 < v < 1), ("tmajor", lambda v: v == 1)):
+            if tfl[nm] != [[int(test(v)) for v in r] for r in d["tfreq"]]: bad.append("%s flags of the targets != their definition (family %s)" % (nm, fam))
     # the subset reading of a multiset with repeats is outside the subset decision space for the family criterion
     # (assignment instead of accumulation); everywhere else the multiplicity/k reading is checked too
     if not (fam == "fam" and dup):
@@ -582,6 +592,10 @@ def emit_latent(case, out):
         if any(v is None for v in g): return None
         return "ev_close (%s, %s, %s) (evalfn_enum %s %s %s)" % (E.lst(g[0], E.q), E.lst(g[1], E.q), E.lst(g[2], E.q), tr, _ql(x), E.lst(lat, E.q))
     parts.append(evterm("ev_sub", s, "sub"))
+    parts.append("Nat.eqb %s (nlatent_of fd)" % E.nat(out["nlatent"]))
+    if "tflags" in out:
+        for nm, fn in (("tminor", "t_minor"), ("thet", "t_het"), ("tmajor", "t_major")):
+            parts.append("list_eqb bl_eqb %s (map (map %s) %s)" % (E.lst2([[bool(v) for v in r] for r in out["tflags"][nm]], E.b), fn, _ql2(d["tfreq"])))
     if fam not in SUBSET_ONLY:
         a = case["a"]
         vec = lambda x: "(DVec %s)" % _ql(x)
@@ -929,7 +943,7 @@ def _qh(a):
 def emit_factory(case, out):
     """factory data evaluated in Coq for the factories with an exact-rational definition"""
     which, pop, A = case["which"], case["pop"], case["args"]
-    if which not in ("gebv_gmat", "gwgebv", "ohv", "opv", "gb", "l1", "uc", "uc_xmap", "pafd", "pau", "mogs"): return None
+    if which not in ("gebv_gmat", "gwgebv", "ohv", "opv", "gb", "l1", "uc", "uc_xmap", "pafd", "pau", "mogs", "embv"): return None
     if any(isinstance(o, dict) and ("exc" in o or o.get("skip")) for o in out.values()): return None
     n, p, t = len(pop["labels"]), len(pop["chrgrp"]), len(pop["beta"])
     hap = E.lst3(pop["hap"], E.z); u = _ql2(pop["u"]); beta = _ql(pop["beta"])
@@ -939,6 +953,11 @@ def emit_factory(case, out):
         if not A["unscale"]: return None
         head += "let g := gebv_def hap u %s %d %d %d in\n  " % (beta, n, p, t)
         parts = ["qclose_ll %s g" % _qh(o["gebv"]) for o in out.values()]
+    elif which == "embv":
+        # selfing homozygous parents: every progeny is the parent, so the expected maximum is the parent's breeding value, one row per cross
+        head += "let g := gebv_def hap u %s %d %d %d in\n  " % (beta, n, p, t)
+        parts = ["qclose_ll %s g" % _qh(o["embv"]) for o in out.values()]
+        parts += ["list_eqb natl_eqb %s (map (fun i => [i]) (seq 0 %d))" % (E.lst2(o["xmap"], E.nat), n) for o in out.values()]
     elif which == "gwgebv":
         if A["alpha"] not in (0.0, 1.0, 2.0): return None
         head += "let g := gwgebv_def hap u %d %d %d %d in\n  " % (int(A["alpha"]), n, p, t)
@@ -1036,42 +1055,19 @@ def emit_case(case, out):
     if case["kind"] != "latent": return None
     return emit_latent(case, out)
 
-def _bad_size(N):
-    return (1.0 / N) * N != 1.0
-
 def classify(case, out, clauses):
-    """narrow mapping of a failing case to a known finding: every clause must belong to the finding's pattern"""
-    k = case["kind"]
-    if not clauses: return None
-    if k == "nlatent":
-        return "C05-pafd-pau-nlatent" if case["case"]["fam"] in ("pafd", "pau") else None
-    if k == "latent":
-        fam, d, s = case["fam"], case["data"], case["s"]
-        if fam in ("pau", "mogs"):
-            if not all(c.startswith("subset latent vector != definition") for c in clauses): return None
-            if fam == "pau" and any(v in (0.0, 1.0) for r in d["tfreq"] for v in r): return "C05-pau-tmajor"
-            N = d["ploidy"] * len(s)
-            if _bad_size(N) and any(sum(d["geno"][i][j] for i in s) == N for j in range(len(d["geno"][0]))): return "C05-pfreq-reciprocal"
-            return None
-        if fam in GUARDED:
-            tot = sum(case["xr"]); a = case["a"]
-            ins, ins_a = 0 < tot < EPS, 0 < a * tot < EPS
-            def explained(c):
-                if c.startswith("xr latent vector != definition on x/sum(x)"): return ins            # x itself is inside the guard
-                if c.startswith("latent vector changes under positive rescaling"): return ins or ins_a
-                return False
-            if all(explained(c) for c in clauses): return "C05-guard-scale"
-        return None
-    if k == "factory":
-        w, A = case["which"], case["args"]
-        if w == "embv" and all("embv != expected maximum breeding value" in c or (A["nrep"] > len(case["pop"]["labels"]) and "factory raised IndexError" in c) for c in clauses):
-            return "C05-embv-index-shadow"              # row nrep-1 is written: garbage elsewhere, IndexError when nrep exceeds the number of crosses
-        X, u, beta, gebv, f = pop_truth(case["pop"])
-        if w == "wgs":
-            if A["phased"] and all("must have dimension equal to 2" in c for c in clauses): return "C05-wgs-factory-phased"
-            if not A["phased"] and bool(numpy.any(f == 0)) and all("gwgebv != weighted breeding values" in c for c in clauses): return "C05-wgs-factory-nan"
-        if w == "l2w" and all("factory raised ValueError: numpy.ndarray 'mkrwt' must have dimension equal to 1" in c for c in clauses): return "C05-l2-factory-weights"
-        if w == "wgebvmat" and bool(numpy.any(f == 1)) and all("mat != arcsine-weighted" in c for c in clauses): return "C05-wgebvmat-fixed-nan"
+    """narrow mapping of a failing case to a known finding: every clause must belong to the finding's pattern.
+    Only the 1e-10 guard is still a known finding; everything else that fails is a violation."""
+    if not clauses or case["kind"] != "latent": return None
+    fam = case["fam"]
+    if fam in GUARDED:
+        tot = sum(case["xr"]); a = case["a"]
+        ins, ins_a = 0 < tot < EPS, 0 < a * tot < EPS
+        def explained(c):
+            if c.startswith("xr latent vector != definition on x/sum(x)"): return ins            # x itself is inside the guard
+            if c.startswith("latent vector changes under positive rescaling"): return ins or ins_a
+            return False
+        if all(explained(c) for c in clauses): return "C05-guard-scale"
     return None
 
 def nontrivial(case, out):
